@@ -31,6 +31,12 @@ func VerifKeywords() (sensitive, insensitive []string) {
 	for k := range reservedKeywords {
 		sensitive = append(sensitive, k)
 	}
+	// the namer also treats the type shorthands as keywords (namer.isKeyword)
+	for k := range typeShorthands {
+		if _, dup := reservedKeywords[k]; !dup {
+			sensitive = append(sensitive, k)
+		}
+	}
 	for k := range caseInsensitiveKeywords {
 		insensitive = append(insensitive, k)
 	}
